@@ -86,7 +86,7 @@ def ref_calibration_objective(result, project, output_quantities):
         elif metric == "meansquare":
             s = float(np.sqrt(np.mean((y2 - y) ** 2))) if len(y) else float("nan")
         elif metric == "wape":
-            s = float(np.sum(np.abs(y2 - y) / (np.mean(y) + 1e-6))) if len(y) else float("nan")
+            s = float(np.sum(np.abs(y2 - y) / (np.mean(y) + 1e-6))) if len(y) else 0.0  # a sum over no data points
         else:
             raise ValueError(metric)
         total += weight * s
@@ -289,6 +289,8 @@ def gen_calibration(ch):
         "project": name,
         "dt": DTS[ch.choose("dt", len(DTS))],
         "end_offset": [0, 0, 1, 3][ch.choose("end_offset", 4)],
+        # simulation starting after the first data year: earlier data points are outside the simulated range
+        "start_offset": [0, 0, 1, 2][ch.choose("start_offset", 4)],
         "adjustables": adjustables,
         "measurables": measurables,
         "maxiters": 1 + ch.choose("maxiters", 14),
@@ -461,6 +463,8 @@ def execute(spec, fault, bump):
         P.settings.update_time_vector(dt=spec["dt"])
     if spec.get("end_offset"):
         P.settings.update_time_vector(end=P.settings.sim_end + spec["end_offset"])
+    if spec.get("start_offset"):
+        P.settings.update_time_vector(start=P.settings.sim_start + spec["start_offset"])
     parset = P.parsets[0]
     progset = P.progsets[0] if len(P.progsets) else None
     if kind == "calibrate" and spec.get("start_factors", "as_is") != "as_is":
@@ -918,6 +922,8 @@ def execute(spec, fault, bump):
             if spec.get("dt"):
                 P2.settings.update_time_vector(dt=spec["dt"])
             P2.settings.update_time_vector(end=end)
+            if spec.get("start_offset"):
+                P2.settings.update_time_vector(start=P2.settings.sim_start + spec["start_offset"])
             oq = []
             for var, pop, w, metric in [tuple(m) for m in spec["measurables"]]:
                 for p in [pop] if pop is not None else list(P2.data.pops.keys()):
